@@ -3,9 +3,12 @@ package main
 import (
 	"bytes"
 	"fmt"
+	"io"
 	"math/rand"
 	"reflect"
+	"runtime"
 	"sort"
+	"sync"
 	"time"
 
 	"github.com/bool64/cache"
@@ -115,7 +118,7 @@ func init() {
 		Rule: "seeded entry sets (0..400 entries, keys of length 0..64 text/binary, values nil/\"\"/0/zero struct/populated registered struct/map/slice, expiry none/+1h/-1h, LRU/LFU counters touched) " +
 			"dumped and restored across every pairing ShardedMap<->SyncMap and ShardedMapOf[V]->ShardedMapOf[V] (V=string, struct), relayed through 1..4 instances; Walk/Read of every relay compared with the source; " +
 			"truncated streams must restore a subset without panic; distinct_nontrivial = distinct (pairing, size class, chain length, value-kind set) cells with >=3 entries",
-		Required: []string{"roundtrips", "entries.compared", "truncations", "pair.ShardedMap->SyncMap", "pair.SyncMap->ShardedMap", "pair.SyncMap->SyncMap", "pair.ShardedMap->ShardedMap", "pair.Of[string]", "pair.Of[struct]"},
+		Required: []string{"concurrent_dumps", "roundtrips", "entries.compared", "truncations", "pair.ShardedMap->SyncMap", "pair.SyncMap->ShardedMap", "pair.SyncMap->SyncMap", "pair.ShardedMap->ShardedMap", "pair.Of[string]", "pair.Of[struct]"},
 		Assumptions: []string{"reflect.DeepEqual on the harness' value alphabet is the equality of values (alphabet avoids gob's nil-vs-empty ambiguities)"},
 	})
 }
@@ -236,12 +239,38 @@ func c13Case(b *Batch, idx int) {
 		if rng.Intn(2) == 0 {
 			dcfg.TimeToLive = 0 // receiver with the default finite TTL: restored expiries must not depend on it
 		}
+		if rng.Intn(3) == 0 {
+			dcfg.CountSoftLimit = uint64(1 + rng.Intn(5)) // soft limits are enforced by the (hourly) cleanup job only
+		}
 		dst := newBackend(dstKind, dcfg)
 		pair := curKind + "->" + dstKind
 		pairs += pair + ";"
 		b.R.Count("pair."+pair, 1)
 		var buf bytes.Buffer
-		dn, derr := cur.Dump(&buf)
+		var dn int
+		var derr error
+		if rng.Intn(4) == 0 {
+			// two dumps of the same cache at the same time: both must be complete
+			var buf2 bytes.Buffer
+			var wg sync.WaitGroup
+			var dn2 int
+			var derr2 error
+			wg.Add(2)
+			go func() { defer wg.Done(); dn, derr = cur.Dump(&slowWriter{w: &buf}) }()
+			go func() { defer wg.Done(); dn2, derr2 = cur.Dump(&slowWriter{w: &buf2}) }()
+			wg.Wait()
+			b.R.Count("concurrent_dumps", 1)
+			other := newBackend(dstKind, dcfg)
+			rn2, rerr2 := other.Restore(&buf2)
+			if derr2 != nil || rerr2 != nil || dn2 != len(srcSnap) || rn2 != len(srcSnap) {
+				b.R.Violate(b, idx, "C13:"+pair+":concurrent-dump", fmt.Sprintf("second concurrent dump: Dump=(%d,%v) Restore=(%d,%v) entries=%d", dn2, derr2, rn2, rerr2, len(srcSnap)), nil)
+			}
+			c13Compare(b, srcSnap, src, other, func(what, msg string) {
+				b.R.Violate(b, idx, "C13:"+pair+":concurrent-dump-"+what, msg, map[string]interface{}{"pair": pair, "n": n})
+			})
+		} else {
+			dn, derr = cur.Dump(&buf)
+		}
 		stream := append([]byte(nil), buf.Bytes()...)
 		rn, rerr := dst.Restore(&buf)
 		b.R.Count("roundtrips", 1)
@@ -368,6 +397,9 @@ func c13Generic[V any](b *Batch, idx int, rng *rand.Rand, cfg cache.Config, keys
 		if rng.Intn(2) == 0 {
 			dcfg.TimeToLive = 0
 		}
+		if rng.Intn(3) == 0 {
+			dcfg.CountSoftLimit = uint64(1 + rng.Intn(5))
+		}
 		dst := cache.NewShardedMapOf[V](dcfg.Use)
 		var buf bytes.Buffer
 		dn, derr := cur.Dump(&buf)
@@ -429,4 +461,12 @@ func c13Generic[V any](b *Batch, idx int, rng *rand.Rand, cfg cache.Config, keys
 	if len(keys) >= 3 {
 		b.R.Nontrivial(fmt.Sprintf("%s/%s/%d", name, sizeClass(len(keys)), chain))
 	}
+}
+
+// slowWriter yields between writes so that two concurrent dumps interleave.
+type slowWriter struct{ w io.Writer }
+
+func (s *slowWriter) Write(p []byte) (int, error) {
+	runtime.Gosched()
+	return s.w.Write(p)
 }
